@@ -302,7 +302,7 @@ type prodResult struct {
 	m         base.Manifest
 }
 
-func (w *prodWorld) newProcessorArgs(r *simkit.Run, ops map[string]base.Operation, workersize int64, fs *prodFS, merged *int) *isaac.DefaultProposalProcessorArgs {
+func (w *prodWorld) newProcessorArgs(r *simkit.Run, ops map[string]base.Operation, workersize int64, fs *prodFS, onMerge func()) *isaac.DefaultProposalProcessorArgs {
 	encs, enc := common.Encs()
 
 	args := isaac.NewDefaultProposalProcessorArgs()
@@ -352,7 +352,7 @@ func (w *prodWorld) newProcessorArgs(r *simkit.Run, ops map[string]base.Operatio
 		bw := isaacdatabase.NewLeveldbBlockWrite(proposal.Point().Height(), mst, encs, enc)
 
 		return isaacblock.NewWriter(proposal, getStatef, bw, func(isaac.BlockWriteDatabase) error {
-			*merged++
+			onMerge()
 
 			return nil
 		}, fs, workersize), nil
@@ -364,7 +364,8 @@ func (w *prodWorld) newProcessorArgs(r *simkit.Run, ops map[string]base.Operatio
 func (w *prodWorld) process(r *simkit.Run, name string, proposal base.ProposalSignFact, ivp base.INITVoteproof, ops map[string]base.Operation, workersize int64) *prodResult {
 	res := &prodResult{fs: &prodFS{states: map[string]base.State{}, r: r}}
 	merged := 0
-	args := w.newProcessorArgs(r, ops, workersize, res.fs, &merged)
+	_ = merged
+	args := w.newProcessorArgs(r, ops, workersize, res.fs, func() { merged++ })
 
 	pp, err := isaac.NewDefaultProposalProcessor(proposal, w.prevManifest, args)
 	if err != nil {
@@ -417,6 +418,10 @@ func (w *prodWorld) process(r *simkit.Run, name string, proposal base.ProposalSi
 }
 
 func prodProposal(w *prodWorld, ops []prodOp, order []int) (base.ProposalSignFact, map[string]base.Operation) {
+	return prodProposalAt(w, ops, order, base.NewPoint(w.height, 0), w.prevManifest.Hash())
+}
+
+func prodProposalAt(w *prodWorld, ops []prodOp, order []int, point base.Point, prev util.Hash) (base.ProposalSignFact, map[string]base.Operation) {
 	m := map[string]base.Operation{}
 	hs := make([][2]util.Hash, len(order))
 
@@ -427,7 +432,7 @@ func prodProposal(w *prodWorld, ops []prodOp, order []int) (base.ProposalSignFac
 	}
 
 	proposer := w.members[0]
-	fact := isaac.NewProposalFact(base.NewPoint(w.height, 0), proposer.Address(), w.prevManifest.Hash(), hs)
+	fact := isaac.NewProposalFact(point, proposer.Address(), prev, hs)
 	pr := isaac.NewProposalSignFact(fact)
 
 	if err := pr.Sign(proposer.Privatekey(), common.NetworkID); err != nil {
@@ -438,11 +443,14 @@ func prodProposal(w *prodWorld, ops []prodOp, order []int) (base.ProposalSignFac
 }
 
 func prodINITVoteproof(w *prodWorld, pr base.ProposalSignFact, expelIdx int) base.INITVoteproof {
+	return prodINITVoteproofAt(w, pr, expelIdx, base.NewPoint(w.height, 0), w.prevManifest.Hash())
+}
+
+func prodINITVoteproofAt(w *prodWorld, pr base.ProposalSignFact, expelIdx int, point base.Point, prev util.Hash) base.INITVoteproof {
 	c := &common.Cluster{Nodes: w.members, Threshold: w.threshold}
-	point := base.NewPoint(w.height, 0)
 
 	if expelIdx < 0 {
-		fact := isaac.NewINITBallotFact(point, w.prevManifest.Hash(), pr.Fact().Hash(), nil)
+		fact := isaac.NewINITBallotFact(point, prev, pr.Fact().Hash(), nil)
 
 		return c.MajorityINIT(point, fact)
 	}
@@ -454,8 +462,8 @@ func prodINITVoteproof(w *prodWorld, pr base.ProposalSignFact, expelIdx int) bas
 		}
 	}
 
-	expels := []base.SuffrageExpelOperation{c.Expel(w.members[expelIdx].Address(), w.height-1, w.height+5, signers)}
-	fact := isaac.NewINITBallotFact(point, w.prevManifest.Hash(), pr.Fact().Hash(), common.ExpelFactHashes(expels))
+	expels := []base.SuffrageExpelOperation{c.Expel(w.members[expelIdx].Address(), point.Height()-1, point.Height()+5, signers)}
+	fact := isaac.NewINITBallotFact(point, prev, pr.Fact().Hash(), common.ExpelFactHashes(expels))
 
 	var sfs []base.BallotSignFact
 	for _, s := range signers {
